@@ -1,8 +1,8 @@
-(* C20: complete enumeration (vm_compute) of the scripted opening with the repairs switched on: DoubleStack, size 7, bot Black.
+(* C20: complete enumeration (one VM evaluation at Qed: vm_cast_no_check) of the scripted opening with the repairs switched on: DoubleStack, size 7, bot Black.
    The expected tallies are those the Go driver measured on the repaired implementation. GENERATED once, then kept. *)
 From Coq Require Import NArith ZArith List Bool.
 Require Import Board Move GameOver Tps Symmetry Fpa.
 Import ListNotations.
 
 Lemma enum_ds_7_b : run [] repaired DoubleStack 7 false = {| nodes := 34994; scripted := 16296; illegal := 0; selfrej := 0; crash := 0 |}%N.
-Proof. vm_compute. reflexivity. Qed.
+Proof. vm_cast_no_check (eq_refl ({| nodes := 34994; scripted := 16296; illegal := 0; selfrej := 0; crash := 0 |}%N)). Qed.
